@@ -167,6 +167,10 @@ func (d *onDriver) fn(ctx context.Context) (int, error) {
 		return 0, &onErr{K: f.k}
 	case "ctxerr":
 		x.Log(trace.E{"ev": "fnleave", "k": f.k, "out": "ctxerr", "v": f.k})
+		if f.k%2 == 0 {
+			// the function gives up because its context is done, and says so in its own words
+			return 0, fmt.Errorf("function %d gave up: %w", f.k, ctx.Err())
+		}
 		return 0, ctx.Err()
 	case "ok0": // success with the zero value
 		x.Log(trace.E{"ev": "fnleave", "k": f.k, "out": "ok0", "v": 0})
